@@ -8,7 +8,7 @@ THOROUGH_CAP_S = 1200
 
 
 class Ob:
-    __slots__ = ('name', 'smt2', 'expect', 'group', 'result', 'seconds', 'model', 'meta', 'text', 'cross', 'nontrivial', 'handled', 'cap')
+    __slots__ = ('name', 'smt2', 'expect', 'group', 'result', 'seconds', 'model', 'meta', 'text', 'cross', 'nontrivial', 'handled', 'cap', 'optional')
 
     def __init__(self, name, smt2, expect, group, meta, text, nontrivial=True):
         self.name, self.smt2, self.expect, self.group, self.meta, self.text = name, smt2, expect, group, meta, text
@@ -16,6 +16,7 @@ class Ob:
         self.nontrivial = nontrivial
         self.handled = False
         self.cap = None
+        self.optional = False      # ladder rung: a timeout is recorded as 'beyond reach in this run', not as inconclusive
 
 
 _MODEL_RE = re.compile(r'\(define-fun\s+(\S+)\s+\(\)\s+(\(_ BitVec \d+\)|Int|Bool)\s+([^\n]*?)\)\s*(?=\(define-fun|\)\s*$)', re.S)
@@ -75,6 +76,9 @@ def _cross(args):
     if solver == 'cvc5':
         cmd = ['cvc5', '--lang', 'smt2', '--tlimit', str(int(timeout_s * 1000))]
         text = '(set-logic ALL)\n' + text
+        # z3 prints its internal "divisor known to be non-zero" operators; on such divisors they coincide with the SMT-LIB ones
+        for op in ('bvurem', 'bvudiv', 'bvsdiv', 'bvsrem', 'bvsmod'):
+            text = text.replace('(%s_i ' % op, '(%s ' % op)
     elif solver == 'z3-old':
         cmd = ['/usr/bin/z3', '-in', '-T:%d' % int(timeout_s)]
     else:
@@ -116,11 +120,12 @@ class Check:
         self.axioms = []            # background facts conjoined to every query (e.g. isz(0), not isz(1))
 
     # ------------------------------------------------------------ recording
-    def must_unsat(self, name, formula, group='', meta=None, text=None, cap=None):
+    def must_unsat(self, name, formula, group='', meta=None, text=None, cap=None, optional=False):
         """formula describes a *violation*; the obligation holds iff it is unsatisfiable"""
         self._add(name, formula, 'unsat', group, meta, text)
         if cap:
             self.obs[-1].cap = cap
+        self.obs[-1].optional = optional
 
     def must_sat(self, name, formula, group='vacuity', meta=None, text=None):
         """reachability / non-vacuity witness: must be satisfiable"""
@@ -146,12 +151,12 @@ class Check:
                 text = '(formula of %d bytes of SMT-LIB; not printed)' % len(smt2)
         self.obs.append(Ob(name, smt2, expect, group, meta, text, nontrivial))
 
-    def must_unsat_any(self, name, formulas, group='no-panic', cap=None):
+    def must_unsat_any(self, name, formulas, group='no-panic', cap=None, optional=False):
         """one query for a family of violation formulas (e.g. every panic site of one run): unsat iff none is satisfiable"""
         fs = [f for f in formulas if not (isinstance(f, bool) and f is False)]
         if not fs:
             return
-        self.must_unsat('%s [%d sites]' % (name, len(fs)), z3.Or(*[z3.BoolVal(f) if isinstance(f, bool) else f for f in fs]), group=group, cap=cap,
+        self.must_unsat('%s [%d sites]' % (name, len(fs)), z3.Or(*[z3.BoolVal(f) if isinstance(f, bool) else f for f in fs]), group=group, cap=cap, optional=optional,
                         text='disjunction of %d site conditions (panic / bounds / unwinding)' % len(fs))
 
     def ground(self, name, ok, detail=''):
@@ -221,7 +226,10 @@ class Check:
         return [o for o in self.obs if o.result in ('sat', 'unsat') and o.result != o.expect]
 
     def undecided(self):
-        return [o for o in self.obs if o.result not in ('sat', 'unsat')]
+        return [o for o in self.obs if o.result not in ('sat', 'unsat') and not o.optional]
+
+    def beyond_reach(self):
+        return [o for o in self.obs if o.result not in ('sat', 'unsat') and o.optional]
 
     def cross_disagreements(self):
         out = []
@@ -282,6 +290,7 @@ class Check:
                                 'seconds': k.get('seconds')} for k in self.kani],
             'mir': self.mir_info,
             'notes': self.notes,
+            'ladder_rungs_not_discharged_in_this_run': [{'name': o.name, 'result': o.result, 'cap_s': max(self.cap, o.cap or 0)} for o in self.beyond_reach()],
             'known_findings_reported': self.known,
             'cross_solver': {'disagreements': self.cross_disagreements(),
                              'checked': len([o for o in obs if o.cross])},
